@@ -12,48 +12,59 @@ CLAIMED = {
                      'the snapshot taken at write time to the digits each field carries, and W(R(W)) must '
                      'reach a byte-wise fixpoint; faults (ENOSPC, EIO, EMFILE, EACCES, crash, buffer size) '
                      'shape the history; every written file is also scanned independently (record counts '
-                     'per section), Fortran-style re-emissions and the shipped files are read. Four '
-                     'classes of extra-precision-subset defects are recorded as known findings. '
+                     'per section), Fortran-style re-emissions and the shipped files are read, also into '
+                     're-used objects; a write (failed or not) must leave the in-memory model as it '
+                     'was, an op must change one object only. Two classes of extra-precision-subset '
+                     'defects are recorded as known findings. '
                      'Exploration: a clean batch is evidence, not proof.'),
     'C03': dict(machine='store (mulgrid writer + SimFS + fresh reader)', ref='3 C03',
                 text='Seeded search over geometry build/edit/write/read/cycle/crash histories under the '
                      'seeded object-hash order; read-back equals the snapshot to the two decimals of the '
                      'format, name lists identical, re-write byte-identical; an independent column scan '
                      'of each written file (feet / metres), a from-scratch Fortran-style writer, reads '
-                     'into re-used objects, faults in every write and read. Exploration.'),
+                     'into re-used objects and with a block_order argument, faults in every write and '
+                     'read; a write leaves the in-memory geometry as it was. Exploration.'),
     'C05': dict(machine='listing (t2listing reader over SimFS images)', ref='3 C05',
                 text='Seeded stored-number rewrites, truncations and skip-table configurations of the 37 '
                      'shipped listing images delivered to the unmodified streaming reader through the '
                      'storage seam; every cell is compared with an independent tokeniser / the injected '
                      'numbers; result sets are reached by equivalent ways of positioning, in seeded '
-                     'orders, with transient read errors inside the positioning. Exploration.'),
+                     'orders, with transient read errors inside the positioning, while second readers '
+                     '(other simulators, the same file), get_difference() and table arithmetic happen '
+                     'in between; rows by name / number and tables as attributes lead to the same '
+                     'numbers. Exploration.'),
     'C06': dict(machine='listing', ref='3 C06',
                 text='Seeded navigation+history() histories on long-lived readers: history() equals '
                      'stepping with a second reader, terminates within an I/O step budget (bounded '
                      'liveness), leaves the cursor state unchanged; short-output values are compared '
-                     'with an independent reading; the file may be replaced under the open reader. '
-                     'Exploration.'),
+                     'with an independent reading; the file may be replaced under the open reader; '
+                     'second readers are asked for the same selection first. Exploration.'),
     'C07': dict(machine='listing', ref='3 C07',
                 text='Seeded navigation histories on one long-lived reader over full and truncated '
                      'and value-perturbed images, with transient read errors inside actions; state after '
-                     'every op equals a fresh reader positioned at that index; plus a deterministic '
+                     'every op equals a fresh reader positioned at that index (also through rows by '
+                     'name and table attributes), refused actions change nothing, second readers of '
+                     'other simulators and of the same file live alongside; plus a deterministic '
                      'sweep of all action sequences up to length 2-3 on every multi-set listing. '
                      'Exploration.'),
     'C08': dict(machine='edit (t2grid under edit histories)', ref='3 C08',
                 text='Seeded edit histories (incl. persist/restart through SimFS) against a reference '
-                     'graph model; structural invariants I1-I4 and model equality I5 after every op, '
+                     'multigraph model; structural invariants I1-I4 and model equality I5 after every '
+                     'op, refused operations (rename, reorder, embed, MINC) must change nothing, '
                      'under a per-block PYTHONHASHSEED (string-set iteration order); plus a '
                      'deterministic sweep of all op sequences up to length 2-3 over a 4-name universe. '
                      'Exploration.'),
     'C09': dict(machine='edit (t2grid reorder/rename/MINC/embed histories)', ref='3 C09',
                 text='Same machine with the physical oracle: per-block volume/rock/centre and per-pair '
                      'area, direction, own-distance map and oriented gravity cosine are compared with the '
-                     'reference model after every reorder/rename/persist; MINC and embed conservation. '
+                     'reference model after every reorder/rename/persist (also re-read into the same '
+                     'object); MINC and embed conservation; I1-I4 as in C08. '
                      'Exploration.'),
     'C10': dict(machine='edit (mulgrid under edit histories)', ref='3 C10',
                 text='Seeded edit histories on geometries under the seeded object-hash order (the only '
                      'scheduler in this code base); back-reference, lookup, orientation and name-list '
-                     'invariants J1-J7 after every op, optional persist/restart and round trip after '
+                     'invariants J1-J7 after every op, refused additions / renames change nothing, '
+                     'optional persist/restart and round trip after '
                      'every high-level op; plus a deterministic sweep of all sequences up to length 2 '
                      'of column/layer edits with every column subset on five small meshes. '
                      'Exploration.'),
@@ -61,7 +72,8 @@ CLAIMED = {
                 text='Seeded search over build/edit/write/read/cycle/foreign-writer/crash histories on a '
                      'simulated directory; acknowledged writes read back equal to 13 decimals, re-write '
                      'byte-identical, shipped and Fortran-style files read as an independent column '
-                     'parser reads them. Exploration.'),
+                     'parser reads them; edits are checked against a plain list model; a write '
+                     '(failed or not) leaves the set as it was. Exploration.'),
 }
 
 NOT_APPLICABLE = {
